@@ -24,9 +24,12 @@ def flags(**kw):
 class Universe:
     """real functions for every abstract signature, one per input slot"""
 
-    def __init__(self, sigs, slots=3):
+    def __init__(self, sigs, slots=3, mode='function'):
+        """mode: 'function' | 'fresh' (every function gets its own, equal but not identical, default objects) |
+        'class' / 'instance' (the signature is read from a class's constructor / a callable instance: objects without __code__)"""
         self.sigs = sigs
         self.slots = slots
+        self.mode = mode
         self._funcs = {}
         self.fns = absig.FnTable()
 
@@ -34,7 +37,18 @@ class Universe:
         key = (i, slot)
         f = self._funcs.get(key)
         if f is None:
-            f = absig.make_func(self.sigs[i], name='f%d' % slot)
+            ps = self.sigs[i]
+            if self.mode == 'fresh':
+                f = absig.make_func(ps, name='f%d' % slot, extra_globals={repr(v): absig.EqSentinel(v.tag, v.id) for v in absig.DV.values()})
+            elif self.mode in ('class', 'instance'):
+                kind = 'po' if ps and ps[0]['k'] == 'po' else 'pok'
+                meth = absig.make_func([{'n': 'self', 'k': kind, 'd': False, 'dv': 0, 'an': 0}] + list(ps), name='__init__' if self.mode == 'class' else '__call__',
+                                       body='return None')
+                K = type('f%d' % slot, (object,), {meth.__name__: meth})
+                f = K if self.mode == 'class' else K()
+                self.fns.add(f, 'f%d' % slot)
+            else:
+                f = absig.make_func(ps, name='f%d' % slot)
             self._funcs[key] = f
         return f
 
